@@ -669,6 +669,14 @@ func buildResources(c *Case, round int) (configs.ExtendedResources, int) {
 		res.VirtualServerExes = []*configs.VirtualServerEx{ex}
 		upd(c.P["sub"])
 		upd(len(ex.Endpoints))
+	case "ingctl":
+		ex := buildIngCtl(c)
+		res.IngressExes = []*configs.IngressEx{ex}
+		upd(len(ex.Endpoints))
+	case "tsctl":
+		ex := buildTSCtl(c)
+		res.TransportServerExes = []*configs.TransportServerEx{ex}
+		upd(len(ex.Endpoints))
 	case "ingress":
 		ex := buildIngress(r, c.P, "cafe-ingress", "cafe.example.com", c.P["ann"], "")
 		res.IngressExes = []*configs.IngressEx{ex}
@@ -1330,6 +1338,40 @@ func runUnit(c *Case) (obs UnitObs) {
 			}
 			return configs.VerifC09APIKeyClients(fresh)
 		}
+	case "controller.Endpoints":
+		// the Endpoints map of the VirtualServerEx the controller builds: per key the addresses, sorted (their order is
+		// the generator's business) but NOT de-duplicated; expected: every address of the (labelled) pods once
+		cc := *c
+		cc.P = map[string]int{"ups": 2 + n%3, "eps": n, "sub": 2, "vsr": n % 2}
+		k := getCtl(&cc)
+		vs, vsrs := vsObjects(&cc)
+		ups := append([]conf_v1.Upstream{}, vs.Spec.Upstreams...)
+		for _, rt := range vsrs {
+			ups = append(ups, rt.Spec.Upstreams...)
+		}
+		exp := map[string]string{}
+		for _, u := range ups {
+			w := k.want[u.Service]
+			if len(u.Subselector) > 0 {
+				w = k.want[u.Service+"|sub"]
+			}
+			exp[configs.GenerateEndpointsKey(vs.Namespace, u.Service, u.Subselector, u.Port)] = strings.Join(w, ",")
+		}
+		for _, key := range sortedKeys(exp) {
+			obs.Bindings = append(obs.Bindings, [2]string{key, exp[key]})
+			obs.Expect = append(obs.Expect, key+"="+exp[key])
+		}
+		obs.Aux = obs.Expect
+		call = func() []string {
+			ex := k.v.CreateVirtualServerEx(vs, vsrs)
+			var out []string
+			for _, key := range sortedKeys(ex.Endpoints) {
+				a := append([]string(nil), ex.Endpoints[key]...)
+				sort.Strings(a)
+				out = append(out, key+"="+strings.Join(a, ","))
+			}
+			return out
+		}
 	case "GenerateEndpointsKey":
 		sub := subselector(r, n)
 		for _, k := range sortedKeys(sub) {
@@ -1528,6 +1570,11 @@ func genCases(a vh.Args) []Case {
 	add("render", "vs", false, map[string]int{"ups": 3, "eps": 1, "mix": 1, "hdr": 1, "long": 1}, rounds)
 	add("render", "vs", true, map[string]int{"ups": 2, "mix": 1, "akp": 2, "keys": 2, "claims": 2, "tiers": 2, "long": 1, "reuse": 1}, rounds)
 	add("render", "vsctl", true, map[string]int{"ups": 2, "eps": 1, "sub": 2, "mix": 1, "long": 1}, rounds)
+	// Ingress and TransportServer through the controller too (endpoint sets spread over several EndpointSlices)
+	add("render", "ingctl", false, map[string]int{"svcs": 3, "eps": 1, "ann": 4}, rounds)
+	add("render", "ingctl", true, map[string]int{"svcs": 2, "eps": 2, "ann": 6, "svcann": 1}, rounds)
+	add("render", "tsctl", false, map[string]int{"ups": 3, "eps": 1}, rounds)
+	add("render", "tsctl", true, map[string]int{"ups": 2, "eps": 2}, rounds)
 	// upstreams selected by 2-4 subselector labels: endpoint sets keyed by GenerateEndpointsKey, as the controller does,
 	// and the whole way through the controller's createVirtualServerEx
 	add("render", "vs", false, map[string]int{"ups": 4, "eps": 2, "sub": 2, "vsr": 1, "akp": 1, "keys": 2}, rounds)
@@ -1582,6 +1629,9 @@ func genCases(a vh.Args) []Case {
 	}
 	for _, n := range []int{2, 3, 4, 6} {
 		add("unit", "GenerateEndpointsKey", false, map[string]int{"n": n}, urounds)
+	}
+	for _, n := range []int{1, 2, 3} {
+		add("unit", "controller.Endpoints", n%2 == 0, map[string]int{"n": n}, urounds)
 	}
 	for _, n := range []int{2, 4, 5} {
 		add("unit", "GenerateVirtualServerConfig", true, map[string]int{"n": n}, urounds)
